@@ -69,6 +69,11 @@ def step (w : W) : List String → W × String
         else (w, tables w 0)
       | _, _ => (w, "no-ack")
     | _, _, _ => (w, "bad-op")
+  | ["xack", a] => match a.toNat? with
+    -- a cookie minted under another server's key does not open under this server's current key
+    | some _ =>
+      if !w.hidden && runActs expClientAck (env (allHonest 6) false true) then (w, tables w 1) else (w, tables w 0)
+    | none => (w, "bad-op")
   | ["hreq", a, kind] => match a.toNat? with
     | some _ =>
       let verdict : Option (Nat × Bool × Bool) :=   -- (mask, timeOK, counts as new valid request)
